@@ -9,7 +9,7 @@ RULE = ("Static harness workers/faultinj linked against the real library archive
         "pthread_cond_init. A clean run counts the calls K_phase the API-calling thread makes inside each phase (encoder: init_handle, set_parameter, init on the smallest accepted configuration "
         "64x64 / 1 logical processor / flat prediction structure, plus lp=4 / recon / 10-bit variants in the thorough tier; decoder: init_handle, set_parameter, init, first dec_frame with 1 and 4 "
         "threads). Each trial re-runs the session in a fresh process with exactly the k-th creation failing (NULL / ENOMEM / EAGAIN). Thorough enumerates every k of every phase (exhaustive=true); "
-        "quick takes the first and last 12 k of each phase, an evenly spaced grid of 40 and a VERIF_SEED-derived sample of 70. Oracle per trial: the API call inside which the failure fired returns a code != "
+        "quick first traces a clean run (call site of every creation) and takes the first, middle and last k of EVERY distinct call site of every phase (about 450 sites) plus a VERIF_SEED-derived sample. Oracle per trial: the API call inside which the failure fired returns a code != "
         "EB_ErrorNone; no crash (ASan), no hang (40 s watchdog); deinit + deinit_handle return; __lsan_do_recoverable_leak_check() finds nothing; the thread count returns to its pre-session value. "
         "Failure sites are symbolised from the return addresses (static functions included). non-trivial = the injected failure actually fired inside library code; distinct = distinct "
         "(target, phase, failing site function, kind of object).")
@@ -98,6 +98,34 @@ def symbolise(exe, pcs):
     return out
 
 
+def trace_sites(ctx, target, env):
+    """{phase: {site(pc pair): [k...]}} from one traced clean run"""
+    tf = os.path.join(ctx["wd"], "trace-%s-%d.txt" % (target, abs(hash(str(sorted((env or {}).items())))) % 100000))
+    e = dict(env or {}, FI_TRACE=tf)
+    run_fi(ctx, target, ["count"], e)
+    sites = {}
+    try:
+        for ln in open(tf):
+            ph, k, kind, pc, pc2 = ln.split()
+            sites.setdefault(int(ph), {}).setdefault((pc, pc2), []).append(int(k))
+    except Exception:
+        pass
+    return sites
+
+
+def plan_by_site(sites, counts, tier, seed, target):
+    """quick tier: first, middle and last k of every distinct creation site of every phase (full site coverage), plus a seeded sample"""
+    rnd = random.Random(seed * 1000003 + (1 if target == "dec" else 0))
+    trials = set()
+    for ph, K in enumerate(counts):
+        if K <= 0:
+            continue
+        for site, ks in (sites.get(ph) or {}).items():
+            trials.update((ph, k) for k in {ks[0], ks[len(ks) // 2], ks[-1]})
+        trials.update((ph, rnd.randint(1, K)) for _ in range(40))
+    return sorted(trials)
+
+
 def plan(counts, tier, seed, target):
     rnd = random.Random(seed * 1000003 + (1 if target == "dec" else 0))
     trials = []
@@ -154,14 +182,20 @@ def main(argv):
     configs = [("enc", {}), ("dec", {})]
     if tier == "thorough":
         configs += [("enc", {"FI_LP": "4", "FI_RECON": "1"}), ("enc", {"FI_10BIT": "1"}), ("dec", {"FI_DEC_THREADS": "4"})]
-    jobs, counts_all = [], {}
+    jobs, counts_all, nsites_planned = [], {}, [0]
     for target, env in configs:
         code, j, err = run_fi(ctx, target, ["count"], env)
         if not j or not j.get("done"):
             print("INCONCLUSIVE: counting run failed for %s %s: exit %s %s" % (target, env, code, err[-300:]))
             return 2
         counts_all["%s %s" % (target, env)] = j["calls"]
-        for ph, k in plan(j["calls"], tier if not env else "quick", a.seed, target):
+        if tier == "thorough" and not env:
+            pl = plan(j["calls"], "thorough", a.seed, target)
+        else:
+            sites = trace_sites(ctx, target, env)
+            nsites_planned[0] += sum(len(v) for v in sites.values())
+            pl = plan_by_site(sites, j["calls"], tier, a.seed, target) if sites else plan(j["calls"], "quick", a.seed, target)
+        for ph, k in pl:
             jobs.append((target, env, ph, k))
     with cf.ThreadPoolExecutor(max_workers=16) as ex:
         results = list(ex.map(lambda t: one(*t), jobs))
@@ -201,7 +235,7 @@ def main(argv):
         symptoms[s] = symptoms.get(s, 0) + 1
     samples = [dict(target=r["target"], phase=PHASES[r["target"]][r["phase"]], k=r["k"], kind=r["kind"], site=r.get("site"), outcome=r["symptom"] or "error returned, clean teardown") for r in fired[:: max(1, len(fired) // 8)]][:8]
     coverage = dict(evaluations=len(results), distinct_nontrivial=len(sites), rule=RULE, samples=samples, classes=dict(symptoms, fired=len(fired), not_fired=len(results) - len(fired)),
-                    calls_per_phase=counts_all, exhaustive=(tier == "thorough"), known_findings_seen=sorted(known_seen), distinct_failure_keys=len(by_key))
+                    calls_per_phase=counts_all, creation_sites_in_trace=nsites_planned[0], exhaustive=(tier == "thorough"), known_findings_seen=sorted(known_seen), distinct_failure_keys=len(by_key))
     engine.write_evidence(ID, tier, a.seed, LEVEL, coverage, time.time() - t0, len(viol), ASSUMPTIONS)
     for k, lst in sorted(known_seen.items()):
         print("KNOWN-FINDING: property=%s %s (n=%d)" % (ID, k, len(lst)))
